@@ -70,6 +70,14 @@ Section Model.
     exact (proj1 (per_req_iff cl_error_ex reqs b _) (spec_error reqs s b c) i q Hn).
   Qed.
 
+  Lemma m_relay :
+    all_conns (fun k b reqs T => forall i q, nth_error reqs i = Some q -> P_relay_ex q (ex (b + i) T)) 0 0 conns Ts.
+  Proof.
+    destruct run_is_spec as [-> _]. apply all_conns_spec. intros reqs s b c i q Hn.
+    apply cl_relay_ex_iff.
+    exact (proj1 (per_req_iff cl_relay_ex reqs b _) (spec_relay reqs s b c) i q Hn).
+  Qed.
+
   Lemma m_skip :
     guard_ok conns = true ->
     all_conns (fun k b reqs T => forall i q, nth_error reqs i = Some q -> P_skip_ex q (ex (b + i) T)) 0 0 conns Ts.
